@@ -136,8 +136,10 @@ impl BufRead for Drip<'_> {
         Ok(&self.data[self.pos..end])
     }
     fn consume(&mut self, amt: usize) {
+        // like std's BufReader: no more than what the last fill_buf handed out can be consumed
+        let amt = amt.min(self.cur).min(self.data.len() - self.pos);
         self.pos += amt;
-        self.cur = self.cur.saturating_sub(amt);
+        self.cur -= amt;
     }
 }
 
